@@ -193,6 +193,16 @@ def _one_run(mod, prop, tier, rs, idx, want_digest, stats=None):
 
 
 def _chunk(args):
+    """Pool task. The work itself happens in a child forked from this worker, so the worker stays pristine and the
+    memory of a chunk is returned to the system (the library leaks every loaded structure class: generated __init__
+    code objects hold the default values, and code objects are invisible to the cycle collector)."""
+    res = fork_call(_chunk_body, args)
+    if res is None:
+        raise RuntimeError(f"chunk starting at run {args[3]} died in its child process (crash or out of memory)")
+    return res
+
+
+def _chunk_body(args):
     prop, tier, seed, start, n, want_digest, budget_deadline = args
     faulthandler.dump_traceback_later(600, exit=True)
     import_library()
